@@ -14,6 +14,7 @@ name / parent / root of providers, inventories, traits, aggregates) and compares
 response; a second monitor fetches both allocation listings of all providers and consumers and
 compares the (provider, consumer, class, amount) quadruples directly.
 """
+from harness import ppool
 import json
 import multiprocessing as mp
 import os
@@ -729,7 +730,7 @@ def run(chk):
                                  for f in load_findings().get('findings', []))
     chk.cov['like_pattern_probes_enabled'] = profile['like_probes']
     seen_sig = {}
-    with ctx.Pool(procs, initializer=hist._init, initargs=(True,)) as pool:
+    with ppool.Pool(ctx, procs, initializer=hist._init, initargs=(True,)) as pool:
         for res in pool.imap_unordered(case, [(s, nops, k, profile) for s in seeds], chunksize=1):
             if 'error' in res:
                 errors.append(res['error'])
